@@ -4,6 +4,7 @@ mod arity;
 mod astdump;
 mod c01;
 mod c08;
+mod c08spell;
 mod c03;
 mod c05;
 mod c07;
